@@ -184,7 +184,11 @@ func discharge(o *Obligation, dir string, idx int, opts solveOpts) {
 		return // a cover that is not confirmed within the first budget is reported as unconfirmed, not retried
 	}
 	if opts.retryS > 0 && o.Result != "error" {
-		try(opts.retryS)
+		r := opts.retryS
+		if o.Budget > r {
+			r = o.Budget
+		}
+		try(r)
 	}
 }
 
